@@ -329,3 +329,117 @@ def selftest():
                     if not ok:
                         bad.append((t, place, K, order))
     return bad
+
+
+# ---------------------------------------------------------------------------------
+# scale cases (ArrayMatch.tla, section "scale"): arrays given by generators, dense placements
+# ---------------------------------------------------------------------------------
+def gen_abstract(g, struct=None):
+    """the abstract array of generator g (AMGenAt / AMGenArrAt) as int64"""
+    n, w = int(g["n"]), int(g["w"])
+    if struct is None:
+        k = np.arange(n - 1, -1, -1, dtype=np.int64) if g["rev"] else np.arange(n, dtype=np.int64)
+        return g["o"] + g["st"] * ((k * int(g["m"]) + int(g["s"])) % w)
+    k = np.arange(n, dtype=np.int64)
+    if struct == "cyclic":
+        cls = (k + int(g["s"])) % w
+    else:
+        q = (n + w - 1) // w
+        cls = (k // q + int(g["s"])) % w
+    return g["o"] + g["st"] * cls
+
+
+def dense_base(t1, place, lo1, hi1):
+    """abstract value v of a dense placement is the concrete value base + v (ints) / (base + v) * step (floats)"""
+    if is_int(t1):
+        tlo, thi = INT_RANGE[t1]
+        if int(t1[1]) <= 2 or place == "dense-bottom":
+            return tlo - 1, 1                       # v = 1 is the minimum of the type
+        if place == "dense-top":
+            return thi - hi1, 1
+        mid = 0 if tlo < 0 else (thi + 1) // 2
+        return mid - (lo1 + hi1) // 2, 1
+    lim = 2 ** 23 if t1 == "f4" else 2 ** 52       # integers (f8 mid: halves) are exact below these
+    if place == "dense-bottom":
+        return -lim, 1
+    if place == "dense-top":
+        return lim - hi1 - 8, 1
+    return -((lo1 + hi1) // 2), (1 if t1 == "f4" else 0.5)
+
+
+def dense_concrete(v, t, base, step):
+    """int64 abstract array -> numpy array of element type t (native order); exactness is checked"""
+    vmin, vmax = int(v.min()), int(v.max())
+    if is_int(t):
+        lo, hi = INT_RANGE[t]
+        if not (lo <= base + vmin and base + vmax <= hi):
+            raise Capacity()
+        u = v.view(np.uint64) + np.uint64(base % 2 ** 64)
+        x = u.view(np.int64) if lo < 0 else u
+        out = x.astype(np.dtype(t))
+        for j in (0, v.size // 2, v.size - 1):          # machinery: spot-check against exact python arithmetic
+            if int(out[j]) != base + int(v[j]):
+                raise ValueError("dense placement is not exact for %s" % t)
+        return out
+    lim = 2 ** 24 if t == "f4" else 2 ** 53
+    if max(abs(base + vmin), abs(base + vmax)) >= lim:
+        raise Capacity()
+    out = ((v + base).astype(np.float64) * step).astype(np.dtype(t))
+    return out
+
+
+def build_np(arr, t, order, layout):
+    """numpy array (native, element type t) -> the argument in the requested byte order and layout (+ buffers)"""
+    dt = dtype_for(t, order, [])
+    base = arr.astype(dt)
+    n = base.size
+    if layout == "contig":
+        return base, [base]
+    if layout == "strided":
+        buf = np.empty(2 * n + 1, dtype=dt)
+        buf[0::2] = np.resize(np.roll(base, 1), n + 1)
+        buf[1::2] = base
+        return buf[1::2], [buf]
+    if layout == "reversed":
+        buf = base[::-1].copy()
+        return buf[::-1], [buf]
+    if layout == "offset":
+        rec = np.zeros(n, dtype=[("p", "u1"), ("v", dt)])
+        rec["p"] = 0xAB
+        rec["v"] = base
+        return rec["v"], [rec]
+    if layout == "readonly":
+        base.flags.writeable = False
+        return base, [base]
+    raise ValueError(layout)
+
+
+def block_rle(i1, i2, P, cap=16):
+    """ArrayMatch!AMBlockRLE of a large result: (number of entries, the first cap entries)"""
+    i1 = np.asarray(i1).astype(np.int64).ravel()
+    i2 = np.asarray(i2).astype(np.int64).ravel()
+    if i1.size != i2.size:
+        return None
+    if i2.size == 0:
+        return 0, []
+    blk = i2 // P
+    rel = i2 - blk * P
+    bnd = np.flatnonzero(np.diff(blk)) + 1
+    starts = np.concatenate(([0], bnd)).tolist()
+    ends = np.concatenate((bnd, [i2.size])).tolist()
+    bl = blk[starts].tolist()
+    out, count = [], 0
+    ls = le = 0
+    b0 = cnt = None
+    for s, e, b in zip(starts, ends, bl):
+        if cnt is not None and b == b0 + cnt and e - s == le - ls and \
+                np.array_equal(i1[s:e], i1[ls:le]) and np.array_equal(rel[s:e], rel[ls:le]):
+            cnt += 1
+            if count <= cap:
+                out[-1]["cnt"] = cnt
+            continue
+        count += 1
+        b0, cnt, ls, le = b, 1, s, e
+        if count <= cap:
+            out.append({"b0": int(b), "cnt": 1, "i1": i1[s:e].tolist(), "i2": rel[s:e].tolist()})
+    return count, out
